@@ -900,7 +900,7 @@ def run(pr, repo):
                  # every swap is undone exactly (C02/C15 obligations on swap_interactions / transfer_determinant)
                  (C02.task_swap, ()), (C02.task_swap_once, ()),
                  # ... and the conformation average, which must leave the conformations' own determinants untouched
-                 (C02.task_average, ())])
+                 (C02.task_average, ()), (C02.task_sequencing, ())])
     bounded(pr)
 
 
